@@ -6,7 +6,7 @@ union of all harnesses."""
 import glob, re, os
 ROOT = os.path.dirname(os.path.dirname(os.path.abspath(__file__)))
 KEEP = {
- "C05": """g4_one_find g4_three_rfind g4_one_count swar_one_find swar_one_rfind swar_one_raw sse2_one_find sse2_one_rfind
+ "C05": """swar_one_find_flush swar_three_rfind_flush sse2_one_find_flush g4_one_find g4_three_rfind g4_one_count swar_one_find swar_one_rfind swar_one_raw sse2_one_find sse2_one_rfind
    pp_g4_find_n3 pp_g4_pre_n3 c18_exact_7_7 c18_exact_6_3 c18_exact_3_5 c18_exact_0_0 c18_raw_19 c18_is_equal
    b_rk_fwd_3_8 b_rk_rev_3_8 mm_twoway_fwd mm_twoway_rev mm_rk_fwd mm_rk_rev mm_packed_g4 lane_aligned_sse2 lane_aligned_avx2
    witness_misaligned_sse2 witness_misaligned_avx2 panic_below_min_sse2_find panic_below_min_sse2_pre panic_below_min_avx2_find
